@@ -178,14 +178,14 @@ def evalBinop (op : String) (a b : Val) : Option Val :=
       | _ => false
     let eq :=
       match a, b with
-      | .slice _ _ _ _, .sliceNil | .sliceNil, .slice _ _ _ _ => some false
       | .loc _ _, .null | .null, .loc _ _ => some false
-      | .sliceNil, .null | .null, .sliceNil => some true
+      | .slice _ _ _ _, .sliceNil | .sliceNil, .slice _ _ _ _ => some false
       | .clo _ _ _ _, _ | _, .clo _ _ _ _ => none
       | _, _ =>
         match width a, width b with
         | some (wa, x), some (wb, y) => some (wa == wb && x == y)
         | some _, none | none, some _ => if unboxed a || unboxed b then some false else none
+        -- structural equality on everything else (the repository's testStructConstructions compares struct values)
         | none, none => some (Val.beq a b)
     eq.map (fun e => .bool (if op == "=" then e else !e))
   | "+" =>
@@ -358,6 +358,8 @@ def runBuiltin (p : Prog) (w : World) (f : String) (args : List Val) (k : List F
     match zeroVal p t, natOf n, (if f == "NewSlice" then natOf n else (args[2]?.bind natOf)) with
     | some z, some n, some c =>
       if c < n then stuck "cap < len" else
+      -- NewSlice of size 0 is slice.nil in GooseLang (why the repository lists failing_testCompareSliceToNil)
+      if c == 0 then ret .sliceNil w else
       let (w', o) := w.alloc (.arr (List.replicate c z)); ret (.slice o 0 n c) w'
     | _, _, _ => stuck "bad arguments"
   | "SliceSingleton", [v] => let (w', o) := w.alloc (.arr [v]); ret (.slice o 0 1 1) w'
